@@ -33,10 +33,10 @@ type c04 struct {
 }
 
 func c04Spec(tier, scenario string) seqx.Spec {
-	depth, maxLive := 6, 3
+	depth, maxLive := 7, 3
 	dl := 100 * time.Second
 	if tier == "thorough" {
-		depth, maxLive = 8, 4
+		depth, maxLive = 9, 4
 		dl = 25 * time.Minute
 	}
 	return seqx.Spec{Prop: "C04", Scenario: scenario, MaxDepth: depth, Deadline: dl,
